@@ -55,12 +55,74 @@ fn exec<S: Crystal>(initial: S, sc: &Scenario) -> Result<RunOut, String> {
     Ok(out)
 }
 
+// ---------------------------------------------------------------------------------------------
+// CLI part: the structure the shipped binary writes, against the group that was asked for
+
+fn check_written<S: Crystal + serde::de::DeserializeOwned>(bytes: &[u8], group: &str, out: &mut RunOut) -> Result<(), String> {
+    let st: S = match serde_json::from_slice(bytes) {
+        Ok(s) => s,
+        Err(e) => {
+            out.violate(Violation::new("written-structure-unloadable", 0, format!("the JSON written by the tool does not load as the state type of the requested shape and potential: {}", e)));
+            return Ok(());
+        }
+    };
+    let info = groups::group_info(group).ok_or("unknown group")?;
+    out.count("probe.states_checked_for_symmetry", 1);
+    if let Err(f) = groups::check_symmetry(&st, &info) {
+        out.violate(Violation::new(f.class, 0, format!("structure written by the command line tool for group {}: {}", group, f.detail)));
+    }
+    Ok(())
+}
+
+fn gen_cli(rng: &mut Rng) -> J {
+    use sim_core::cliproc;
+    let mut sc = cliproc::gen_valid(rng);
+    sc.convergence = None;
+    sc.fault = rng.pick(&["none", "none", "stale-output", "start-config-other-group", "start-config-other-group"]).to_string();
+    sc.to_json().set("mode", J::str("cli-symmetry"))
+}
+
+fn exec_cli(j: &J) -> Result<RunOut, String> {
+    use sim_core::cliproc::{self, CliScenario};
+    let sc = CliScenario::from_json(j)?;
+    let r = cliproc::run_cli(&sc)?;
+    let mut out = RunOut::default();
+    out.hash = r.hash();
+    out.sim_steps = 1;
+    out.nontrivial = true;
+    out.sample = Some(r.sample());
+    out.count("probe.cli_runs", 1);
+    out.count(&format!("probe.group/{}", sc.group), 1);
+    out.count("fault.F-args(start configuration of another group supplied)", (sc.fault == "start-config-other-group") as u64);
+    out.count("fault.F-stale(output files existed before the run)", (sc.fault == "stale-output") as u64);
+    if r.code != Some(0) {
+        // whether a valid invocation may fail is C20's question, not this one's
+        out.count("probe.cli_exit_nonzero", 1);
+        return Ok(out);
+    }
+    let bytes = match &r.json {
+        Some(b) => b.clone(),
+        None => return Ok(out),
+    };
+    let lj = sc.potential.as_deref() == Some("LJ");
+    match (sc.shape.as_str(), lj) {
+        ("polygon", _) => check_written::<packing::PackedState<LineShape>>(&bytes, &sc.group, &mut out)?,
+        (_, false) => check_written::<packing::PackedState<MolecularShape2>>(&bytes, &sc.group, &mut out)?,
+        (_, true) => check_written::<packing::PotentialState<LJShape2>>(&bytes, &sc.group, &mut out)?,
+    }
+    Ok(out)
+}
+
+fn is_cli(j: &J) -> bool {
+    j.get("mode").and_then(|m| m.as_str()) == Some("cli-symmetry")
+}
+
 impl Check for C04 {
     fn id(&self) -> &'static str {
         "C04"
     }
     fn rule(&self) -> String {
-        "run i: group x shape (regular and scalene radial polygons - the latter make handedness observable -, circle, trimers) x potential (hard/LJ) x chain of 1..4 stages with special-position writes (x,y = +-1/2, orientation 2pi, ...), restarts and clone-and-discard; from splitmix(VERIF_SEED,'C04',i). At every score() call and every chain boundary the placed shapes are compared with their images under every operation of the harness's own table of the requested group, mapped to Cartesian space with the current cell; each operation must be orthogonal. Non-trivial: a stage moved a parameter or a clamp/special/restart fired. Distinct: hash of boundary states.".into()
+        "run i: group x shape (regular and scalene radial polygons - the latter make handedness observable -, circle, trimers) x potential (hard/LJ) x chain of 1..4 stages with special-position writes (x,y = +-1/2, orientation 2pi, ...), restarts and clone-and-discard; from splitmix(VERIF_SEED,'C04',i). At every score() call and every chain boundary the placed shapes are compared with their images under every operation of the harness's own table of the requested group, mapped to Cartesian space with the current cell; each operation must be orthogonal. Every 50th run instead executes the shipped binary (valid group x shape x potential x replications x steps from the swarm; plain, with stale output files present, or handed a valid start configuration saved for ANOTHER group), loads the JSON it wrote and holds it to the table of the group named on the command line. Non-trivial: a stage moved a parameter or a clamp/special/restart fired; any process execution. Distinct: hash of boundary states (process: exit status, normalised stderr, output bytes).".into()
     }
     fn runs(&self, tier: Tier) -> u64 {
         match tier {
@@ -68,7 +130,11 @@ impl Check for C04 {
             Tier::Thorough => 200_000,
         }
     }
-    fn generate(&self, rng: &mut Rng, tier: Tier, _i: u64) -> J {
+    fn generate(&self, rng: &mut Rng, tier: Tier, i: u64) -> J {
+        // every 50th run asks the question of the file the shipped binary writes
+        if i % 50 == 49 {
+            return gen_cli(rng);
+        }
         let max_steps = match tier {
             Tier::Quick => 500,
             Tier::Thorough => 1000,
@@ -86,29 +152,38 @@ impl Check for C04 {
         sc.to_json()
     }
     fn execute(&self, j: &J) -> Result<RunOut, String> {
+        if is_cli(j) {
+            return exec_cli(j);
+        }
         let sc = Scenario::from_json(j)?;
         with_state!(&sc, exec, &sc)
     }
     fn shrink(&self, j: &J) -> Vec<J> {
+        if is_cli(j) {
+            return crate::e4::shrink_c20_e4(j).into_iter().filter(|x| x.get("group") == j.get("group") && x.get("fault") == j.get("fault")).map(|x| x.set("mode", J::str("cli-symmetry"))).collect();
+        }
         // the group is part of the question: keep it
         Scenario::from_json(j)
             .map(|s| shrink_scenario(&s).iter().filter(|x| x.group == s.group).map(|x| x.to_json()).collect())
             .unwrap_or_default()
     }
     fn components_real(&self) -> Vec<&'static str> {
-        REAL.to_vec()
+        let mut v = REAL.to_vec();
+        v.extend_from_slice(crate::e4::REAL);
+        v
     }
     fn components_stub(&self) -> Vec<&'static str> {
         STUB.to_vec()
     }
     fn assumptions(&self) -> Vec<String> {
         vec![
+            "CLI part: the written JSON is loaded with the library's own Deserialize into the state type of the requested shape and potential and is then held to the requested group's table; a run that exits non-zero is left to C20".into(),
             "the groups' general positions (standard setting, International Tables Vol. A) are tabulated inside the harness, independently of src/wallpaper.rs".into(),
             "sets of placed points are compared (vertices / disc centres with radii), so a shape's own symmetry cannot cause an alarm; tolerance 4e-9*(1+cell size), orthogonality 1e-9".into(),
             "for one fixed state this is a pure function; what the simulation contributes is the set of states (drift, clamps, special positions, restarts)".into(),
         ]
     }
     fn expected_probes(&self) -> Vec<&'static str> {
-        vec!["probe.states_with_oblique_cell", "probe.chiral_shape_runs", "fault.F-special(kept)", "fault.F-restart", "probe.group/p1g1", "probe.group/p2mg"]
+        vec!["probe.cli_runs", "fault.F-args(start configuration of another group supplied)", "probe.states_with_oblique_cell", "probe.chiral_shape_runs", "fault.F-special(kept)", "fault.F-restart", "probe.group/p1g1", "probe.group/p2mg"]
     }
 }
